@@ -51,6 +51,14 @@ Section Statements.
   Proof. exact (gi_matches_flat pm negative). Qed.
 End Statements.
 
+(** Part (ii), internal consistency only: the executable wildmatch decides exactly the
+    declarative relation [Matches] (literal, ?, class, star = slash-free run, trailing globstar =
+    anything, globstar before a slash = zero directories or anything up to a slash). Whether
+    [Matches] (with the tokenizer and the line parser) is Git's language is validated, not
+    proved. *)
+Theorem C28_wm_spec : forall (ts : list token) (t : bytes), wm ts t = true <-> Matches ts t.
+Proof. exact wm_spec. Qed.
+
 Check @C28_stack_semantics_partial : forall (pat : Type) (pm : pat -> path -> bool -> bool)
   (negative : pat -> bool) (st : stack) (base : list pat) (p : path) (is_dir : bool),
   jj_ignored pm negative st base p is_dir = git_ignored pm negative st base p is_dir.
@@ -80,3 +88,4 @@ Proof. vm_compute. split; reflexivity. Qed.
 
 Print Assumptions C28_stack_semantics_partial.
 Print Assumptions C28_last_match.
+Print Assumptions C28_wm_spec.
